@@ -160,10 +160,12 @@ class Root:
 class Tracer:
     """Flow-insensitive backward slice of a value to the set of things it can come from."""
 
-    def __init__(self, fn):
+    def __init__(self, fn, extra_transparent=None):
         self.fn = fn
         self.defs = fn.defs()
         self._memo = {}
+        # calls a rule wants looked through in addition to the general table (`mem::take(&mut v)` hands on what v held), name -> (arg index, prefix)
+        self.extra_transparent = dict(extra_transparent or {})
 
     def roots_of_operand(self, op, extra_path=()):
         if op["k"] == "c":
@@ -205,6 +207,8 @@ class Tracer:
                     out.add(Root("local", local, path))
                     continue
                 tr = transparent(node)
+                if tr is None and self.extra_transparent:
+                    tr = self.extra_transparent.get(strip_generics(callee_name(node)))
                 if tr is not None and node["args"]:
                     ai, pre = tr
                     a = node["args"][ai]
@@ -671,7 +675,8 @@ def switch_labels(fn, b):
                 out.append((tb, {"kind": "not", "of": inner, "truth": bool(int(v))}))
             out.append((other, {"kind": "not", "of": inner, "truth": True}))
             return out
-    if d is not None and d[1] is None:
+    if d is not None and d[1] is None and (fn.local_ty(d[2]["dest"]["l"]) == "bool" or d[2]["dest"].get("p")):
+        # (a call result of an integer type that is matched on directly -- `match poll(..) { 0 => .., n if n < 0 => .., _ => .. }` -- is a value test, below)
         call = d[2]
         nm = strip_generics(callee_name(call))
         if nm in PRED_CALLS:
@@ -802,7 +807,7 @@ class Explorer:
                 locs.add(l)
             for d in ds:
                 if d[1] is not None and d[2]["rv"]["r"] == "discr":
-                    places.add(place_key(d[2]["rv"]["pl"]))
+                    places.add(self._canon_pk(place_key(d[2]["rv"]["pl"])))
         # enum-valued locals tested through a predicate call (`r.is_break()`), and the locals their value is moved from
         def _deref_local(l):
             ds = [d for d in fn.defs().get(l, []) if d[1] is not None]
@@ -812,7 +817,8 @@ class Explorer:
         self._deref_local = _deref_local
         for b in range(len(fn.blocks)):
             t = fn.term(b)
-            if t["t"] == "call" and strip_generics(callee_name(t)) in PRED_CALLS and t["args"]:
+            if t["t"] == "call" and (strip_generics(callee_name(t)) in PRED_CALLS or strip_generics(callee_name(t)) in _UNWRAPS) and t["args"]:
+                # (an unwrap of what is known to be the failing variant has no successor)
                 l = op_local(t["args"][0])
                 if l is not None:
                     places.add((_deref_local(l),))
@@ -904,6 +910,25 @@ class Explorer:
                     changed = True
         _close_places()
         return locs, places
+
+    def _canon_pk(self, pk):
+        """`match &value {..}` / `matches!(&value, ..)` test the value through a shared borrow taken for the purpose: the discriminant of `(*r)`, r = &value being the
+        one definition of r, is the discriminant of `value` (which is what a later `match value {..}` tests)"""
+        fn = self.fn
+        for _ in range(4):
+            if len(pk) < 2 or pk[1] != "*" or not isinstance(pk[0], int):
+                return pk
+            ds = [d for d in fn.defs().get(pk[0], []) if not fn.is_cleanup(d[0])]
+            if len(ds) != 1 or ds[0][1] is None or ds[0][2]["lhs"].get("p"):
+                return pk
+            rv = ds[0][2]["rv"]
+            if rv["r"] == "ref" and rv.get("m") == "Shared":
+                pk = place_key(rv["pl"]) + tuple(pk[2:])
+            elif rv["r"] == "use" and op_place(rv["a"][0]) is not None and not rv["a"][0]["pl"].get("p"):
+                pk = (rv["a"][0]["pl"]["l"],) + tuple(pk[1:])
+            else:
+                return pk
+        return pk
 
     def apply_block(self, b, env):
         """environment after the statements (and call destination) of block b"""
@@ -1072,7 +1097,7 @@ class Explorer:
             env2 = dict(env_after)
             feasible = True
             if lab["kind"] == "variant":
-                pk = lab["pk"]
+                pk = self._canon_pk(lab["pk"])
                 if ("d", pk) in env_after and env_after[("d", pk)] != lab["value"]:
                     feasible = False
                 if ("dn", pk) in env_after and lab["value"] in env_after[("dn", pk)]:
@@ -1081,7 +1106,7 @@ class Explorer:
                     env2[("d", pk)] = lab["value"]
                     env2.pop(("dn", pk), None)
             elif lab["kind"] == "variant_not":
-                pk = lab["pk"]
+                pk = self._canon_pk(lab["pk"])
                 if ("d", pk) in env_after and env_after[("d", pk)] in lab["not"]:
                     feasible = False
                 if pk in self.interesting_places and ("d", pk) not in env_after:
